@@ -1237,9 +1237,9 @@ impl Family for Ics20Family {
     }
     fn props(&self) -> Vec<PropSpec> {
         vec![
-            PropSpec { id: "C11", quick_cases: 1600, thorough_cases: 7000, floor: 40, rule: "case = 1-3 channels, allow list, default gas limit, up to 36 (thorough 90) ops: native and cw20 transfers (amounts up to and above 2^64-1), incoming packets from a malicious counterparty (denom forms: right prefix, bare, wrong port, wrong channel, another channel's prefix, nested, unknown base; amounts around / above the outstanding balance, 0, > 2^64; valid and invalid receivers; raw garbage), deliver / ack success / ack error / timeout per sent packet in any order, payout and refund sub-calls failing on demand (blocked bank recipient, flaky cw20); oracle: real holdings >= sum over channels of reported outstanding per token and paid <= escrowed per (channel, token), foreign / excess packets release nothing, error acks move nothing. Non-trivial: >=1 redeeming packet, >=1 processed refund and (an injected payout/refund failure or one token outstanding on two channels).", assumptions: ASSUME },
-            PropSpec { id: "C12", quick_cases: 1600, thorough_cases: 7000, floor: 60, rule: "as C11 with an honest counterparty model (vouchers minted on delivery, only held vouchers returned), governance changes (Allow, UpdateAdmin, migrate) and a 30% upgrade arm starting from a fabricated 0.11.1 / 0.12.1 / 0.13.0 storage image (acked sends booked, in-flight sends held but unbooked, cw20 tokens possibly absent from the allow list) that is migrated first; oracle: outstanding == sent - failed/timed-out - redeemed per (channel, denom) after every op; receive never aborts and always acks; success ack => full payout and balance reduced; error ack => all channel states, holdings and user balances unchanged; every accepted transfer emits exactly one packet with amount == escrowed funds (<= 2^64-1), denom, true sender, receiver, memo, timeout == block time + requested-or-default. Non-trivial: >=1 success ack and >=1 error ack on incoming packets.", assumptions: ASSUME },
-            PropSpec { id: "C18", quick_cases: 2000, thorough_cases: 8000, floor: 40, rule: "case with sparse initial allow list and default gas limit, ops weighted to Allow (new / raise / lower / some->none / none->some), UpdateAdmin, migrate, cw20 transfers and packets that trigger payouts, by governance, former governance and strangers; oracle: allow list / admin change only in successful calls of the pre-call governance address, set only grows, per-token limit never decreases (none = unlimited), default never unset, cw20 transfer accepted only if allowed or default set, every cw20 payout/refund sub-message carries the token's current limit else the default (native: none). Non-trivial: >= 2 of {accepted raise, refused lowering, cw20 payout after a change, attempt by former governance}.", assumptions: ASSUME },
+            PropSpec { id: "C11", quick_cases: 6000, thorough_cases: 7000, floor: 150, rule: "case = 1-3 channels, allow list, default gas limit, up to 36 (thorough 90) ops: native and cw20 transfers (amounts up to and above 2^64-1), incoming packets from a malicious counterparty (denom forms: right prefix, bare, wrong port, wrong channel, another channel's prefix, nested, unknown base; amounts around / above the outstanding balance, 0, > 2^64; valid and invalid receivers; raw garbage), deliver / ack success / ack error / timeout per sent packet in any order, payout and refund sub-calls failing on demand (blocked bank recipient, flaky cw20); oracle: real holdings >= sum over channels of reported outstanding per token and paid <= escrowed per (channel, token), foreign / excess packets release nothing, error acks move nothing. Non-trivial: >=1 redeeming packet, >=1 processed refund and (an injected payout/refund failure or one token outstanding on two channels).", assumptions: ASSUME },
+            PropSpec { id: "C12", quick_cases: 6000, thorough_cases: 7000, floor: 225, rule: "as C11 with an honest counterparty model (vouchers minted on delivery, only held vouchers returned), governance changes (Allow, UpdateAdmin, migrate) and a 30% upgrade arm starting from a fabricated 0.11.1 / 0.12.1 / 0.13.0 storage image (acked sends booked, in-flight sends held but unbooked, cw20 tokens possibly absent from the allow list) that is migrated first; oracle: outstanding == sent - failed/timed-out - redeemed per (channel, denom) after every op; receive never aborts and always acks; success ack => full payout and balance reduced; error ack => all channel states, holdings and user balances unchanged; every accepted transfer emits exactly one packet with amount == escrowed funds (<= 2^64-1), denom, true sender, receiver, memo, timeout == block time + requested-or-default. Non-trivial: >=1 success ack and >=1 error ack on incoming packets.", assumptions: ASSUME },
+            PropSpec { id: "C18", quick_cases: 7000, thorough_cases: 8000, floor: 140, rule: "case with sparse initial allow list and default gas limit, ops weighted to Allow (new / raise / lower / some->none / none->some), UpdateAdmin, migrate, cw20 transfers and packets that trigger payouts, by governance, former governance and strangers; oracle: allow list / admin change only in successful calls of the pre-call governance address, set only grows, per-token limit never decreases (none = unlimited), default never unset, cw20 transfer accepted only if allowed or default set, every cw20 payout/refund sub-message carries the token's current limit else the default (native: none). Non-trivial: >= 2 of {accepted raise, refused lowering, cw20 payout after a change, attempt by former governance}.", assumptions: ASSUME },
         ]
     }
     fn strategy(&self, prop: &str, tier: Tier) -> BoxedStrategy<Case> {
